@@ -3,7 +3,67 @@ from vcheck import DiffProperty, ASAN_ENV
 
 M64 = (1 << 64) - 1
 ARITY = {"set": 1, "xset": 1, "unset": 1, "cset": 2, "get": 1, "xget": 1, "clear": 0, "res": 1, "xres": 1,
-         "emit": 2, "hash": 2, "serr": 1, "sdef": 1, "ctx": 0, "fini": 0, "xfini": 0}
+         "emit": 2, "hash": 2, "serr": 1, "sdef": 1, "ctx": 0, "fini": 0, "xfini": 0,
+         "xarr": 0, "djb": 1, "djs": 1, "djn": 1, "lrep": 1, "rset": 3, "rzero": 3, "rdefer": 0, "rtraits": 0,
+         "xcopy": 0, "unk": 1, "cinit": 1}
+
+# ---- patches proposed under docs/ that are not committed in /repo yet.  The Coq model follows the PATCHED code;
+# while a constant is False the operations that tell patched and unpatched code apart are taken out of every case
+# (restrict() below: generated cases and corpus alike).  Set to True after committing the patch; nothing else changes.
+#
+# docs/C11_reserve_typed.diff: mpt_command_reserve on a table whose buffer carries the command traits (made by
+# mpt_command_set / mpt_dispatch_set / set_handler, or the default constructed C++ command::array of op xarr) compacts
+# and then ALWAYS returns NULL (mpt_array_append refuses typed buffers).  Taken out while False: every res/xres with a
+# non-zero size on such a table.
+PATCHED_RESERVE_TYPED = True
+# docs/C11_dispatch_copy.diff: struct dispatch is copyable; the copy shares _err, _ctx (and a raw table), its teardown
+# finalises what the original still holds, the second teardown is a use after free.  Taken out while False: op xcopy.
+PATCHED_DISPATCH_COPY = True
+# docs/C12_default_waiter_format.diff (found by the C12 check, same file command_reserve.c): log_reply prints the slot
+# argument with "%s" - crash for an Answer message with a negative code (the only level the default logger prints).
+# Taken out while False: op lrep with such a message.
+PATCHED_DEFAULT_WAITER_FORMAT = True
+
+
+def split_ops(case):
+    t = case.split()
+    ops, i = [], 0
+    while i < len(t):
+        n = ARITY.get(t[i], 0)
+        ops.append(t[i:i + n + 1])
+        i += n + 1
+    return ops
+
+
+def msg_bytes(m):
+    """flat bytes of a message token n | f<hex>,<hex>.."""
+    if m == "n":
+        return None
+    return bytes.fromhex("".join(x for x in m[1:].split(",") if x != "-"))
+
+
+def restrict(case):
+    """the case without the operations that need a patch which is not committed yet (see the constants above)"""
+    kind = None          # buffer behind the table: None | "T" (command traits) | "R" (raw)
+    out = []
+    for o in split_ops(case):
+        n = o[0]
+        if n in ("set", "xset", "cset", "xarr"):
+            kind = kind or "T"      # xarr leaves a raw table alone
+        elif n in ("res", "xres") and int(o[1], 0) != 0:
+            if kind == "T" and not PATCHED_RESERVE_TYPED:
+                continue
+            kind = kind or "R"
+        elif n in ("fini", "xfini"):
+            kind = None
+        elif n == "xcopy" and not PATCHED_DISPATCH_COPY:
+            continue
+        elif n == "lrep" and not PATCHED_DEFAULT_WAITER_FORMAT:
+            b = msg_bytes(o[1])
+            if b is not None and len(b) >= 2 and b[0] == 1 and b[1] >= 0x80:
+                continue
+        out.append(o)
+    return " ".join(t for o in out for t in o)
 
 
 def djb2(bs):
@@ -103,7 +163,37 @@ def hash_ev(rng, opno, live=None):
     return "%x:%s:%s" % (pick_id(rng), frag_tok(data, rng, nfr), rp)
 
 
+LREP_MSGS = ["n", "f", "f,", "f01", "f0100", "f0105", "f017f", "f01ff", "f0180", "f01,ff", "f00", "f0003", "f0000", "f0008",
+             "f007f", "f0090", "f0401", "f04,20,676f", "f09", "f0902030405", "f,09,,0203", "f0601ff00"]
+UNK_EVS = ["0:f:0", "0:f,:5", "0:f,,:0", "0:f09:5", "0:f09:0", "0:f,04,20:7", "3:n:5", "3:n:0", "3:f01:5", "0:n:0", "0:n:5",
+           "ffffffffffffffff:f:5"]
+
+
+def aux_op(rng):
+    """one call beside the dispatcher"""
+    k = rng.randrange(12)
+    if k < 3:
+        w = rng.choice(WORDS[:4] + [b"", b"a\0b", b"\0", b"\xff\x80\x7f", bytes(rng.randrange(256) for _ in range(rng.randrange(0, 7)))])
+        return [rng.choice(["djb", "djs"]), hx(w) or "-"]
+    if k == 3:
+        return ["djn", str(rng.choice([-1, 0, 5]))]
+    if k < 6:
+        return ["lrep", rng.choice(LREP_MSGS)]
+    if k < 9:
+        mx = rng.choice([0, 2, 4, 4, 6, 16])
+        cur = bytes(rng.randrange(256) for _ in range(rng.choice([0, 0, 1, 2, mx])))[:mx]
+        if rng.random() < 0.7:
+            n = rng.choice([0, 1, 2, mx, mx + 1, max(mx - 1, 0)])
+            return ["rset", str(mx), hx(cur) or "-", hx(bytes(rng.randrange(256) for _ in range(n))) or "-"]
+        return ["rzero", str(mx), hx(cur) or "-", str(rng.choice([0, 1, mx, mx + 1]))]
+    if k == 9:
+        return rng.choice([["rdefer"], ["rtraits"], ["xcopy"], ["cinit", "n"], ["cinit", "0"], ["cinit", "1"]])
+    return ["unk", rng.choice(UNK_EVS)]
+
+
 def gen_op(rng, opno, cxx, live):
+    if rng.random() < 0.06:
+        return aux_op(rng)
     r = rng.random()
     if r < 0.20:
         i = pick_id(rng) if rng.random() < 0.8 else pick_id(rng, live)
@@ -124,7 +214,7 @@ def gen_op(rng, opno, cxx, live):
         live.clear()
         return ["clear"]
     if r < 0.52:
-        return [rng.choice(["res", "xres"]), str(rng.choice([0, 1, 1, 1, 2, 3, 4, 8, 9]))]
+        return [rng.choice(["res", "xres"]), str(rng.choice([0, 1, 1, 1, 2, 3, 4, 5, 6, 7, 8, 9]))]
     if r < 0.78:
         return ["emit", emit_ev(rng, opno, live), rsp_tok(rng, live)]
     if r < 0.88:
@@ -136,6 +226,8 @@ def gen_op(rng, opno, cxx, live):
     if r < 0.98:
         return ["ctx"]
     live.clear()
+    if cxx and rng.random() < 0.5:
+        return ["fini", "xarr"]      # a new array object in place of the table (two operations)
     return ["fini"]
 
 
@@ -173,6 +265,33 @@ def scenarios():
                   ["hash", "0:f0420%s:5" % hx(w), "0:-"], ["fini"]])
     big = WORDS[4]
     S.append([["set", "%x" % djb2(big)], ["hash", "0:f0420%s:0" % hx(big), "0:-"], ["hash", "0:f0420%s,%s:6" % (hx(big[:60]), hx(big[60:])), "0:-"]])
+    # the default constructed C++ command::array as table (io::stream::_wait): reserve, registration, growth, teardown, again
+    S.append([["xarr"], ["xres", "1"], ["xset", "5"], ["xres", "1"], ["xres", "1"], E(1), E(5), E(6), E(7), ["xget", "6"], ["unset", "1"],
+              ["xres", "1"], ["fini"], ["xarr"], ["xget", "1"], ["clear"], ["xres", "2"], E(1), ["xfini"]])
+    S.append([["xarr"], ["emit", "N", "0:-"], E(1), ["sdef", "1"], ["xarr"], ["xset", "1"], ["xarr"], E(1, "1:-"), ["emit", "N", "0:-"], ["fini"]])
+    # reserve on a table made by registration: above the stored ids, after compaction, low id search
+    S.append([["set", "1"], ["res", "1"], ["res", "1"], E(2), ["set", "ff"], ["res", "1"], ["unset", "1"], ["res", "1"], E(1), E(4), ["fini"]])
+    S.append([["cset", "7", "0"], ["res", "1"], E(8), ["fini"]])
+    # every id of one byte taken: the 128th reservation is refused, a freed id is found again (raw and registered table)
+    S.append([["res", "1"]] * 128 + [E(0x7f), ["unset", "4d"], ["res", "1"], ["res", "1"], E(0x4d), ["fini"]])
+    S.append([["set", "7f"]] + [["res", "1"]] * 127 + [["unset", "7f"], ["res", "1"], ["fini"]])
+    # size classes of the id range
+    S.append([["res", str(k)] for k in (0, 1, 2, 3, 4, 5, 6, 7, 8, 9)] + [["set", "7fffffffffffffff"]] +
+             [["res", str(k)] for k in (9, 7, 6, 5, 4, 3, 2, 1)] + [["fini"]])
+    # calls beside the dispatcher
+    S.append([["djb", "-"], ["djs", "-"], ["djn", "-1"], ["djn", "0"], ["djn", "7"], ["djb", "676f"], ["djs", "676f"], ["djb", "67006f"],
+              ["djs", "67006f"], ["djs", "00"], ["djb", "00"], ["djb", "ff807f"], ["djs", "ff807f"], ["djs", hx(WORDS[4])]])
+    S.append([["lrep", m] for m in LREP_MSGS])
+    S.append([["rset", "4", "-", "0102"], ["rset", "4", "07", "0102"], ["rset", "4", "07", "-"], ["rset", "4", "-", "-"],
+              ["rset", "4", "-", "0102030405"], ["rset", "4", "-", "01020304"], ["rset", "4", "01020304", "05"], ["rset", "0", "-", "-"],
+              ["rset", "0", "-", "01"], ["rset", "2", "-", "0102"], ["rset", "16", "aa", "-"], ["rset", "16", "-", hx(bytes(range(16)))],
+              ["rzero", "4", "-", "3"], ["rzero", "4", "-", "5"], ["rzero", "4", "09", "2"], ["rzero", "4", "09", "0"], ["rzero", "0", "-", "0"],
+              ["rdefer"], ["rtraits"], ["cinit", "n"], ["cinit", "0"], ["cinit", "1"]])
+    S.append([["unk", e] for e in UNK_EVS])
+    S.append([["ctx"], ["unk", "3:n:0"], ["serr", "0"], ["unk", "0:f09:9"], ["set", "3"], ["unk", "3:n:4"], E(3), ["fini"]])
+    # copying the dispatcher must be impossible: nothing is finalised, the original stays intact
+    S.append([["xcopy"], ["serr", "1"], ["ctx"], ["set", "1"], ["xcopy"], E(1), E(2), ["xfini"]])
+    S.append([["res", "1"], ["set", "5"], ["xcopy"], E(1), E(5), ["fini"]])
     return [flat(s) for s in S]
 
 
@@ -194,7 +313,7 @@ def compaction_patterns(n):
 
 
 SMALL_OPS = [["set", "1"], ["set", "2"], ["unset", "1"], ["cset", "1", "1"], ["cset", "2", "0"], ["res", "1"], ["clear"],
-             ["emit", "1:n:0", "1:-"], ["emit", "2:f02:0", "3:0"], ["emit", "N", "0:-"], ["serr", "1"], ["fini"]]
+             ["emit", "1:n:0", "1:-"], ["emit", "2:f02:0", "3:0"], ["emit", "N", "0:-"], ["serr", "1"], ["fini"], ["xarr"]]
 
 
 def small_scope(depth):
@@ -220,13 +339,10 @@ class C11(DiffProperty):
     thorough_n = 200000
 
     def split(self, case):
-        t = case.split()
-        ops, i = [], 0
-        while i < len(t):
-            n = ARITY.get(t[i], 0)
-            ops.append(t[i:i + n + 1])
-            i += n + 1
-        return [], ops
+        return [], split_ops(case)
+
+    def corpus(self):
+        return [c for c in (restrict(c) for c in DiffProperty.corpus(self)) if c]
 
     def shrink_candidates(self, case):
         _, ops = self.split(case)
@@ -281,6 +397,12 @@ class C11(DiffProperty):
             cl.add("op:" + o[0])
             if o[0] in ("set", "xset", "cset", "res", "xres"):
                 nset += 1
+            if o[0] == "lrep":
+                b = msg_bytes(o[1])
+                cl.add("waiter:null" if b is None else "waiter:empty" if not b else
+                       "waiter:answer" if b[0] == 1 else "waiter:output" if b[0] == 0 else "waiter:other")
+            if o[0] in ("rset", "rzero"):
+                cl.add("reply_data:%s" % ("active" if o[2] != "-" else "idle"))
             if o[0] in ("emit", "hash"):
                 if o[1] == "N":
                     cl.add("ev:null")
@@ -307,6 +429,24 @@ class C11(DiffProperty):
             cl.add("use-after-fini")
         if names and names[0] in ("res", "xres"):
             cl.add("raw-table")
+        kind = None
+        nres = 0
+        for o in ops:
+            if o[0] in ("set", "xset", "cset"):
+                kind = kind or "T"
+            elif o[0] == "xarr":
+                if kind is None:
+                    cl.add("table:c++-default-array")
+                kind = kind or "T"
+            elif o[0] in ("res", "xres") and int(o[1], 0) != 0:
+                nres += 1
+                if kind == "T":
+                    cl.add("reserve-on-table-with-traits")
+                kind = kind or "R"
+            elif o[0] in ("fini", "xfini"):
+                kind = None
+        if nres >= 128:
+            cl.add("reserve-range-exhausted")
         return cl
 
     def generate(self, rng, tier):
@@ -319,54 +459,85 @@ class C11(DiffProperty):
             ops = []
             cxx = rng.random() < 0.5
             live = set()
-            # half of the histories start on a raw (reserve-made) table
-            if rng.random() < 0.35:
+            # a third of the histories start on a raw (reserve-made) table, some C++ ones on a default constructed array
+            r0 = rng.random()
+            if r0 < 0.35:
                 ops.append([rng.choice(["res", "xres"]), str(rng.choice([1, 1, 2, 8]))])
+            elif cxx and r0 < 0.50:
+                ops.append(["xarr"])
             for j in range(nops):
                 ops.append(gen_op(rng, len(ops) + 1, cxx, live))
             if rng.random() < 0.5:
                 ops.append([rng.choice(["fini", "xfini"]) if cxx else "fini"])
             cases.append(flat(ops))
-        return cases
+        return [c for c in (restrict(c) for c in cases) if c]
 
     rule = ("a case = one history on a fresh dispatcher (mpt_dispatch_init / dispatch::dispatch); operations: register "
             "(mpt_dispatch_set, command::array::set_handler), unregister, mpt_command_set with handler or NULL (replace/delete), lookup, "
-            "mpt_command_clear, mpt_command_reserve (+arming, C and C++ entry), mpt_dispatch_emit with NULL event | id | message "
-            "(1..4 fragments, empty ones, empty message) with and without own reply context, mpt_dispatch_hash on command texts "
+            "mpt_command_clear, mpt_command_reserve (+arming, C and C++ entry; sizes 0..9: every id range) on a raw table, on a table "
+            "made by registration and on a default constructed C++ command::array (xarr: the shared empty content with command traits "
+            "is assigned to the table, the old buffer is released through its content traits), mpt_dispatch_emit with NULL event | id | "
+            "message (1..4 fragments, empty ones, empty message) with and without own reply context, mpt_dispatch_hash on command texts "
             "(blank / graphic / NUL separator, other message types, truncated header, missing message, 130-byte word contiguous and split), "
             "dispatch::set_error, dispatch::set_default, fallback reply context, mpt_dispatch_fini / ~dispatch and operations after it; "
-            "ids from {0..5, 0xff, djb2 ids of 5 words, 6,7,8,0x7f,0x80, 2^64-2, 2^64-1}; handler returns from {0..7, 0x10000, 0x10001, "
-            "-1,-2,-16,-128,-129,-200} and optionally rewrites ev->id; 13 hand-written scenarios, every live/dead pattern of up to 6 (thorough 8) "
-            "slots on a raw and on a typed table followed by reserve/emit/fini, EVERY history of up to 3 (thorough 4) operations over 12 "
-            "fixed operations (exhaustive), + random histories of 2..40 operations aimed at the ids believed registered; "
-            "a case is non-trivial when it contains an operation (every case does); distinct = distinct case text")
-    modelled = ("mptcore/event/{command_get,command_set,command_reserve,command_traits,dispatch_set,dispatch_emit,dispatch_hash,"
-                "dispatch_finit}.c, misc/hash_djb2.c and the dispatch/command::array members of mpt++/event.cpp transcribed in "
-                "coq/C11/DispatchModel.v (message parts through the C17 model of message_read.c/message_argv.c); the buffer allocator "
-                "(growth, realloc) is not modelled beyond typed/raw; mpt_log output, reply message text, reply_data/mpt_reply_set and "
-                "reply_context::defer in event.cpp are not modelled")
-    trusted = ["harness/c11_dispatch.cpp reads the table back from raw buffer memory and logs every call of its handler / reply context / metatype",
+            "beside the dispatcher (state must stay untouched): mpt_hash_djb2 with a length, NUL terminated and on NULL (texts with "
+            "NUL and high bytes), the default handler of a reserved slot on NULL and on 21 messages (answer / output / other type, "
+            "one byte, empty, fragmented), reply_data::set with data and with NULL on idle and active objects of 0..16 bytes "
+            "(value area and a guard behind it read back), reply_context::defer / pointer_traits, the built-in fallback handler "
+            "called directly (12 events incl. the empty message), init of the command content traits, copy construction of the "
+            "dispatcher; ids from {0..5, 0xff, djb2 ids of 5 words, 6,7,8,0x7f,0x80, 2^64-2, 2^64-1}; handler returns from "
+            "{0..7, 0x10000, 0x10001, -1,-2,-16,-128,-129,-200} and optionally rewrites ev->id; 27 hand-written scenarios (incl. 128 "
+            "reservations of one-byte ids: the last is refused, a freed id is found again), every live/dead pattern of up to 6 "
+            "(thorough 8) slots on a raw and on a typed table followed by reserve/emit/fini, EVERY history of up to 3 (thorough 4) "
+            "operations over 13 fixed operations (exhaustive), + random histories of 2..40 operations aimed at the ids believed "
+            "registered; operations that need a patch of docs/ not committed yet are taken out of every case (constants PATCHED_* "
+            "at the top of props/c11.py); a case is non-trivial when it contains an operation (every case does); distinct = distinct "
+            "case text")
+    modelled = ("mptcore/event/{command_get,command_set,command_reserve (incl. static log_reply),command_traits,dispatch_set,"
+                "dispatch_emit,dispatch_hash,dispatch_finit (incl. static unknownEvent)}.c, misc/hash_djb2.c (both length conventions), "
+                "event/reply_set.c and ALL of mpt++/event.cpp (dispatch / command::array members, reply_data::set, reply_context::defer, "
+                "pointer_traits) transcribed in coq/C11/DispatchModel.v AS THE CODE IS AFTER docs/C11_reserve_typed.diff and "
+                "docs/C11_dispatch_copy.diff (message parts through the C17 model of message_read.c/message_argv.c); the buffer "
+                "allocator (growth, realloc, reference counts) is not modelled beyond typed/raw and 'released with its traits'; mpt_log "
+                "output, reply message text and the type registry behind pointer_traits are compared with the specification only "
+                "(constant results)")
+    trusted = ["harness/c11_dispatch.cpp reads the table back from raw buffer memory and logs every call of its handler / reply context / metatype; "
+               "it builds reply_data objects and message parts in exact-size heap blocks and hides library output on stdout during lrep",
                "malloc succeeds; char is signed (x86-64) in hash_djb2.c",
-               "mpt++/event.cpp is compiled inside the harness unit without -fsanitize=vptr (the C/C++ struct overlay of the library trips it)"]
-    level_text = ("proof: 13 Coq theorems (coq/C11/Properties.v, all closed under the global context) over ALL histories on a fresh "
+               "mpt++/event.cpp and mpt++/array.cpp are compiled inside the harness unit without -fsanitize=vptr (the C/C++ struct overlay of the library trips it)"]
+    level_text = ("proof: 19 Coq theorems (coq/C11/Properties.v, all closed under the global context) over ALL histories on a fresh "
                   "dispatcher, no bound on length, table size or ids: C11_step_refines_map / C11_history_refines_map (the slot table with "
                   "unused-slot reuse, append and in-place compaction refines a finite map id -> handler; no table access out of range; the "
                   "low-id search of reserve terminates), C11_emit_reaches_registered, C11_emit_fallback_otherwise, C11_emit_empty_message, "
                   "C11_emit_null_event, C11_hash_reaches_registered (exactly one handler call, to the handler registered for the id carried "
                   "by id field / first message byte / djb2 hash of the command word, else to the fallback, else nobody), "
+                  "C11_hash_text_is_first_argument (the trailing-NUL strip of dispatch_hash.c never applies), "
                   "C11_default_bookkeeping (_def and the Default bit of the result follow the handler's return value), "
                   "C11_finalised_exactly_once / C11_finalised_after_fini (every registration gets exactly one cmd(arg, NULL) - on replace, "
-                  "unregister, clear, set_error or teardown - or is still held; never invoked after it), C11_live_ids_unique, "
-                  "C11_reserved_ids_unique, C11_compaction_is_stable_filter; the model is tied to the code on every run by differential "
-                  "execution of the C entry points and the mpt++ wrappers under ASan/UBSan")
+                  "unregister, clear, set_error, release of the table buffer or teardown - or is still held; never invoked after it), "
+                  "C11_live_ids_unique, C11_reserved_ids_unique, C11_reserve_succeeds_while_ids_free (reserve refuses only for size 0 or "
+                  "when every id of the range is live - raw table, registered table and C++ command::array alike), "
+                  "C11_compaction_is_stable_filter, C11_djb2_cstring / C11_djb2_length (mpt_hash_djb2 = djb2 of the bytes before the first "
+                  "NUL / of exactly len bytes, no read outside the storage), C11_reply_data_set, C11_aux_calls_refine (default waiter, "
+                  "built-in fallback, reply_data::set, command traits on checked storage = their flat specification); the model is tied to "
+                  "the code on every run by differential execution of the C entry points and the mpt++ wrappers under ASan/UBSan")
     level_note = ("trusted: Coq kernel; hand transcription of the C/C++ sources (validated by the correspondence run, not verified); "
                   "extraction and OCaml driver; harness. Handlers are abstract: scripted return value, may rewrite ev->id, do not re-enter "
                   "the dispatcher. Message parts go through the C17 model (its theorems are used). Allocation is assumed to succeed; the "
-                  "buffer allocator is modelled only as typed/raw. Two defects found and fixed in the worktree (reserve id wrap to 0, "
-                  "dispatch::set_default indexing by position). mpt++/event.cpp is compiled without -fsanitize=vptr. See docs/notes_C11.md.")
+                  "buffer allocator is modelled only as typed/raw. The model follows the code AS PATCHED by docs/C11_reserve_typed.diff "
+                  "(reserve on a buffer with command traits always failed: io::stream::await could never register a waiter) and "
+                  "docs/C11_dispatch_copy.diff (struct dispatch was copyable: double end-of-life calls, use after free of the reply "
+                  "context); until the constants PATCHED_RESERVE_TYPED / PATCHED_DISPATCH_COPY / PATCHED_DEFAULT_WAITER_FORMAT in "
+                  "props/c11.py are set the operations that tell the difference (reserve on such a table, xcopy, default waiter on a "
+                  "negative answer) are left out of the cases. Compared with the specification only (constant): reply_context::defer, "
+                  "pointer_traits, log text. A reserved slot must be armed before an event reaches it (log_reply takes a message, not an "
+                  "event); replacing the table object is not done on a raw buffer (no traits: handlers would be dropped silently). "
+                  "Earlier defects (fixed in /repo): reserve id wrap to 0, dispatch::set_default indexing by position. See docs/notes_C11.md.")
     technique = "Coq refinement proof (slot table -> finite map, call log invariants) + differential correspondence check"
     assumptions = ["malloc succeeds", "handlers do not call back into the dispatcher they are registered on",
-                   "a reserved slot is armed by the caller as mpt_connection_await does (log_reply is never dispatched an event)"]
+                   "a reserved slot is armed by the caller as mpt_connection_await does (log_reply is never dispatched an event)",
+                   "docs/C11_reserve_typed.diff and docs/C11_dispatch_copy.diff describe the code that is modelled; cases that depend on "
+                   "them run only after the PATCHED_* constants are set"]
 
 
 PROP = C11()
